@@ -152,8 +152,25 @@ fn arb_from_double() -> BoxedStrategy<String> {
 		.boxed()
 }
 
+/// Integer literals at or next to the midpoint of two adjacent doubles (15..24 digits).
+fn arb_integer_near_midpoint() -> BoxedStrategy<String> {
+	(any::<u64>(), 53u64..80, -12i64..=12, any::<bool>())
+		.prop_map(|(m, e, delta, neg)| {
+			// a double with integer spacing 2^(e-52) >= 2: f = (2^52 + m52) * 2^(e-52)
+			let f = f64::from_bits(((1023 + e) << 52) | (m & 0x000f_ffff_ffff_ffff));
+			let g = f64::from_bits(f.to_bits() + 1);
+			let mid = Dec::from_f64(f).add(&Dec::from_f64(g)).half();
+			// mid is an integer here (spacing >= 2); add a small delta with decimal arithmetic
+			let d = Dec::parse(&delta.abs().to_string());
+			let v = if delta >= 0 { mid.add(&d) } else { mid.abs_diff(&d) };
+			format!("{}{}", if neg { "-" } else { "" }, v.to_plain())
+		})
+		.boxed()
+}
+
 pub fn arb_ijson_number(max_digits: usize) -> BoxedStrategy<String> {
 	prop_oneof![
+		2 => arb_integer_near_midpoint(),
 		3 => (any::<i32>()).prop_map(|i| i.to_string()),
 		3 => arb_scaled(6),
 		3 => arb_scaled(20),
@@ -180,8 +197,11 @@ fn arb_ijson_value(max_digits: usize) -> BoxedStrategy<RefValue> {
 	];
 	let tricky_keys = prop::sample::select(vec!["\u{e000}", "\u{ffff}", "\u{10000}", "\u{10ffff}", "a\u{e000}", "a\u{10000}", "\u{d7ff}", "\u{fb33}", "\u{1f600}", "\u{20ac}", "\r", "1", "\u{80}", "\u{f6}", "a", "aa", "", "\u{e000}\u{10000}", "\u{10000}\u{e000}"])
 		.prop_map(|s| s.to_string());
-	let key = prop_oneof![4 => tricky_keys, 3 => gen::arb_key(false)];
-	let wide_key = prop_oneof![2 => gen::arb_long_key(), 2 => gen::arb_string(), 1 => (0x1_0000u32..0x1_0400, 0xE000u32..0xE400, any::<bool>()).prop_map(|(a, b, first)| {
+	let prefixed2 = (prop::sample::select(vec!["0123456789abcdef", "0123456789abcde", "a-shared-prefix-of-more-than-sixteen-utf16-units:"]), prop::sample::select(vec!["\u{e000}", "\u{ffff}", "\u{10000}", "\u{10ffff}", "\u{1f600}", "z", ""])).prop_map(|(p, t)| format!("{p}{t}"));
+	let key = prop_oneof![4 => tricky_keys, 3 => gen::arb_key(false), 2 => prefixed2];
+	let prefixed = (prop::sample::select(vec!["", "p", "0123456789abcde", "0123456789abcdef", "http://schema.org/a-long-shared-prefix/", "\u{10000}\u{10000}\u{10000}\u{10000}\u{10000}\u{10000}\u{10000}\u{10000}\u{10000}"]), prop::sample::select(vec!["\u{e000}", "\u{ffff}", "\u{10000}", "\u{10ffff}", "\u{fb33}", "\u{1f600}", "a", "", "\u{e000}x", "\u{10000}x", "\u{d7ff}"]))
+		.prop_map(|(p, t)| format!("{p}{t}"));
+	let wide_key = prop_oneof![2 => gen::arb_long_key(), 2 => gen::arb_string(), 3 => prefixed.clone(), 1 => (0x1_0000u32..0x1_0400, 0xE000u32..0xE400, any::<bool>()).prop_map(|(a, b, first)| {
 		let (a, b) = (char::from_u32(a).unwrap(), char::from_u32(b).unwrap());
 		if first { format!("{a}{b}") } else { format!("{b}{a}") }
 	})];
